@@ -81,6 +81,12 @@ def run_case(case, ctx):
     rng = rng_for(ctx.seed, "c18", k)
     defects = [rng.choice(DEFECTS) for _ in range(rng.choice([0, 0, 1, 2, 3]))]
     recipe = trees.gen_recipe(rng, n_files=rng.randint(3, 10), defects=defects, spicy=(k % 2 == 0), git=(k % 11 == 5))
+    if k % 6 == 4:
+        # licence texts kept in a directory that is linked into LICENSES/ (shared between projects): one used, one not
+        recipe["files"].append({"path": "uses_linked_dir.py", "kind": "text", "style": "python", "multi": False,
+                                "sources": [{"carrier": "header", "copyrights": ["2022 Linked Dir"], "exprs": [("id", "LicenseRef-Vendor-EULA")], "toml_dir": ""}]})
+        recipe["licenses"].append({"name": "shared/LicenseRef-Vendor-EULA.txt", "id": "LicenseRef-Vendor-EULA", "linkdir": True})
+        recipe["licenses"].append({"name": "shared/LicenseRef-Shared-Notice.txt", "id": "LicenseRef-Shared-Notice", "linkdir": True})
     # make sure LicenseRef- texts exist in a good share of trees
     if k % 3 == 0:
         recipe["files"].append({"path": "refuser.txt", "kind": "text", "style": "python", "multi": False,
@@ -119,6 +125,16 @@ def run_case(case, ctx):
     try:
         trees.build(recipe, root, ctx.state["styles"])
         outdir.mkdir()
+        if (root / "LICENSES" / "shared").is_dir():
+            shutil.move(str(root / "LICENSES" / "shared"), str(top / "shared-licenses"))
+            os.symlink(str(top / "shared-licenses"), root / "LICENSES" / "shared")
+            res.cell("licenses:linked-directory")
+        if k % 8 == 5:
+            # files longer than any one read of the checksum routine, and no multiple of a round block size
+            (root / "big one.dat").write_bytes(b"# SPDX-License-Identifier: MIT\n" + bytes(range(256)) * 4096 + b"tail of 123 bytes".ljust(92, b"!"))
+            (root / "big three.dat").write_bytes(bytes(range(255, -1, -1)) * 13500 + b"odd tail")
+            recipe["extra_covered"] = ["big one.dat", "big three.dat"]
+            res.cell("files:larger-than-1-MiB")
         outer = False
         if k % 5 == 2:
             # text files with CRLF / CR line endings: the checksum is that of the bytes on disk, whatever they are
@@ -255,7 +271,7 @@ def check_doc(res, doc, lint, recipe, root, concluded, args):
     if sorted(names) != sorted(lint_files):
         res.violation("file-sections-vs-covered", f"File sections {sorted(set(names) ^ set(lint_files))} differ from the covered files lint examined",
                       sections=sorted(names), covered=sorted(lint_files), recipe=recipe)
-    exp_cov = trees.spec_expect(recipe)["covered"]
+    exp_cov = trees.spec_expect(recipe)["covered"] | set(recipe.get("extra_covered", []))
     if set(names) != exp_cov:
         res.violation("file-sections-vs-recipe", f"File sections differ from the recipe's covered files: {sorted(set(names) ^ exp_cov)}", recipe=recipe)
     ids = [f.get("SPDXID") for f in files]
